@@ -165,7 +165,7 @@ def startPlayer (s : State) (rate : Int) (e : Env) : Res :=
     else { ret := 0, state := { s2 with st := XMP_STATE_PLAYING } }
 
 /-- `xmp_set_player` -/
-def setPlayer (s : State) (parm val : Int) : Res :=
+def setPlayer (s : State) (parm val : Int) (e : Env) : Res :=
   let stateErr : Bool :=
     if parm == XMP_PLAYER_SMPCTL || parm == XMP_PLAYER_DEFPAN then s.st >= XMP_STATE_LOADED
     else if parm == XMP_PLAYER_VOICES then s.st >= XMP_STATE_PLAYING
@@ -189,7 +189,10 @@ def setPlayer (s : State) (parm val : Int) : Res :=
   else if parm == XMP_PLAYER_DEFPAN then
     if val >= 0 && val <= 100 then { ret := 0, state := { s with defpan := val } } else { ret := ERR_INVALID, state := s }
   else if parm == XMP_PLAYER_MODE then
-    if val >= XMP_MODE_AUTO && val <= XMP_MODE_ITSMP then { ret := 0, state := { s with mode := val } }
+    if val >= XMP_MODE_AUTO && val <= XMP_MODE_ITSMP then
+      -- the sequences are rescanned under the new mode's reading of the order list; when nothing is
+      -- playable that way (environment: `e.res ≠ 0`) the old mode is kept and the call refused
+      if e.res != 0 then { ret := ERR_INVALID, state := s } else { ret := 0, state := { s with mode := val } }
     else { ret := ERR_INVALID, state := s }
   else if parm == XMP_PLAYER_VOICES then
     if val >= 0 && val <= 65536 then { ret := 0, state := { s with voices := val } } else { ret := ERR_INVALID, state := s }
@@ -292,7 +295,7 @@ def step (s : State) (c : Call) (e : Env) : Res :=
     if s.st < XMP_STATE_PLAYING then { ret := 0, state := s }
     else if chn < 0 || chn >= XMP_MAX_CHANNELS then { ret := 0, state := s }
     else { ret := 0, state := s }                                  -- p->inject_event[channel] written
-  | .setPlayer parm val => setPlayer s parm val
+  | .setPlayer parm val => setPlayer s parm val e
   | .getPlayer parm => { ret := getPlayer s parm e, state := s }
   | .setInsPath _ => { ret := 0, state := s }
   | .startSmix chn smp =>
